@@ -178,7 +178,8 @@ let () =
       let kind = match k with "0" -> DCTFrames.FBaseline | "1" -> DCTFrames.FExtended | "2" -> DCTFrames.FProgressive | _ -> DCTFrames.FUnsupported in
       let scans = if sc = "-" then [] else Stdlib.List.map (fun c -> c = 'a') (Stdlib.List.init (Stdlib.String.length sc) (Stdlib.String.get sc)) in
       let (rows, ok) = DCTFrames.decode_frame kind (z_of_string h) scans in
-      Printf.printf "%s %s %s\n" id (zs rows) (string_of_bool ok)
+      (* rows written before a refusal may still sit in the output buffer: only the verdict is compared then *)
+      if ok then Printf.printf "%s %s 1\n" id (zs rows) else Printf.printf "%s - 0\n" id
     | id :: "B2" :: [n] ->
       Printf.printf "%s %s\n" id (zs (Gen_C08dct.jbig2_workLimit (z_of_string n)))
     | id :: "W" :: [sc] ->
